@@ -22,7 +22,7 @@ GUARD = "INOVESA_VERIF"
 DEFINES = [
     "-DINOVESA_ENABLE_INTERRUPT=1", "-DINOVESA_USE_HDF5=1",
     "-DINOVESA_USE_OPENCL=0", "-DINOVESA_USE_OPENGL=0", "-DINOVESA_USE_PNG=0",
-    '-DGIT_BRANCH="verif"', '-DGIT_COMMIT="0"', "-D%s=1" % GUARD,
+    '-DGIT_BRANCH="feature/verification-build-with-a-long-branch-name"', '-DGIT_COMMIT="0123456789abcdef0123456789abcdef01234567"', "-D%s=1" % GUARD,
 ]
 INCLUDES = ["-I/usr/include/hdf5/serial"]
 LIBS = ["-L/usr/lib/x86_64-linux-gnu/hdf5/serial", "-lhdf5_cpp", "-lhdf5",
